@@ -1,6 +1,6 @@
 SPECIFICATION Spec
 CONSTANTS
   Senders <- Senders2
-  Script <- ScriptL
+  Script <- Script21
 PROPERTIES CollectorTerminates CollectReturns DropReturns
 CHECK_DEADLOCK FALSE
